@@ -6,6 +6,10 @@ McPackets == {{<<d, v>>} : d \in 1..(ND + 1), v \in {0, 1}}
              \cup {{<<d, 0>>, <<d, 1>>} : d \in 1..ND}
              \cup {{<<d, 0>>, <<e, 1>>} : d \in 1..ND, e \in 1..ND}
              \cup {{<<1, 0>>, <<ND + 1, 0>>}}
+\* four blocks with one confirm packet per deputy: every tree of four blocks (a fork hanging on an intermediate block of a
+\* multi-height stable jump needs four), exhaustively
+McPacketsOne == {{<<d, 0>>} : d \in 1..ND}
+McPoolTwo == {1}                \* (one miner keeps the four-block graph replayable: 29k transitions)
 \* ---- term configurations: TermDuration = 4, InterimDuration = 1: snapshot block at height 4, the next term signs
 \* from height 6; the stabilised prefix is heights 1..4, so the universe holds blocks of heights 5 (old term), 6, 7
 McOne == 1
